@@ -10,9 +10,13 @@ package c07
 // followed by erased bytes and the GUID table, last GUID first, at the very end.
 
 import (
+	"bytes"
+	"fmt"
 	"math/rand"
 	"strings"
 	"unicode/utf8"
+
+	"github.com/linuxboot/fiano/pkg/guid"
 
 	"verif/harness/core"
 	hu "verif/harness/props/uefi"
@@ -120,10 +124,53 @@ func runNvar(c core.Case) core.Outcome {
 	out := core.Outcome{Class: c.Kind + ":" + r.class(), Key: c.Kind + digLen(in) + r.class()}
 	out.Checks = append(out.Checks, core.Check{Tag: "O", What: "wellformed-image-saves", Exp: "ok", Got: r.directClass, Sig: "direct-" + r.directClass})
 	out.Checks = append(out.Checks, r.roundTripChecks(true)...)
+	out.Checks = append(out.Checks, nvarModelCheck(c, r)...)
 	for i := range out.Checks {
 		out.Checks[i].Sig = "nvar:" + c.Args["shape"] + ":" + out.Checks[i].Sig
 	}
 	return out
+}
+
+// nvarModelCheck compares what Extract wrote below the directory of the RAW file that holds the store
+// with the Lean model of the NVar arm (Uefi/ExtractNvar.lean on C10's store model): number of files,
+// paths (raw bytes), lengths and contents, in writing order.  Only when fiano attached a store to the file
+// (otherwise the file is an ordinary leaf and is written as <GUID>.ffs).
+func nvarModelCheck(c core.Case, r *rt) []core.Check {
+	if r.parseClass != "ok" || r.exClass != "ok" {
+		return nil
+	}
+	var g guid.GUID
+	copy(g[:], hu.GuidNVAR)
+	prefix := "bios/0x0/" + g.String() + "/0/"
+	var ws []written
+	for _, w := range r.listing {
+		if strings.HasPrefix(w.path, prefix) {
+			if strings.HasSuffix(w.path, ".ffs") {
+				return nil
+			}
+			ws = append(ws, w)
+		}
+	}
+	cs := []core.Check{}
+	// the directory round trip of the store itself (nested stores included): what `utk DIR save` wrote where
+	// the store was, against `asmDirStore` — "err" when loading or saving the directory failed (F-C07-1)
+	if st := core.UnHex(c.Args["store"]); len(st) > 0 {
+		if idx := bytes.Index(r.in, st); idx >= 0 {
+			exp := "err"
+			if r.pdClass == "ok" && r.dsClass == "ok" && len(r.out) >= idx+len(st) {
+				exp = "ok " + digLen(r.out[idx:idx+len(st)])
+			}
+			cs = append(cs, core.Check{Tag: "M", What: "nvar-dir-save", Req: "nvdirsave " + c.Args["store"], Exp: exp, Sig: "nvar-dir-save"})
+		}
+	}
+	return append(cs, []core.Check{
+		{Tag: "M", What: "nvar-extract-listing", Req: "nvlisting " + c.Args["store"],
+			Exp: fmt.Sprintf("ok %d:%016x", len(ws), core.FNV([]byte(listingText(ws)))), Sig: "nvar-listing"},
+		// the same through the tree-level model: uefi.Parse with C10's store parser as the NVAR hook, then
+		// Extract on the whole tree (volume header, file directory GUID/index, the NVar arm below it)
+		{Tag: "M", What: "nvar-tree-listing", Req: "nvimage " + core.Hex(nvarImage(core.UnHex(c.Args["store"]))),
+			Exp: fmt.Sprintf("ok %d:%016x", len(r.listing), core.FNV([]byte(listingText(r.listing)))), Sig: "nvar-tree-listing"},
+	}...)
 }
 
 func nvName(r *rand.Rand) []byte {
@@ -277,6 +324,57 @@ func nvarCases(r *rand.Rand, tier string) []core.Case {
 			d := s.dataOnly([]byte("new value"), 0xFFFFFF)
 			s.patchNext(head, d)
 			cs = append(cs, nvarCase("longprefix", s.finish(8)))
+		}
+		// names that agree in exactly their first 64 bytes (what extract keeps), in every combination of
+		// entry kinds: two live full entries, an invalidated one, the head of a link and its data entry
+		{
+			p64 := strings.Repeat("P", 64)
+			s = &nvStore{}
+			s.full([]byte(p64+"a"), g, []byte("A"), true, 0xFFFFFF, 0)
+			s.full([]byte(p64+"b"), g, []byte("BB"), true, 0xFFFFFF, 0)
+			off := s.full([]byte(p64+"c"), g, []byte("dead"), true, 0xFFFFFF, 0)
+			s.body[off+9] &^= nvValid
+			head := s.full([]byte(p64), g, []byte("old"), true, 0xFFFFFF, 0)
+			d := s.dataOnly([]byte("new"), 0xFFFFFF)
+			s.patchNext(head, d)
+			s.full([]byte(p64+"/"+"d"), g, []byte("with a separator behind the bound"), false, 0xFFFFFF, 0)
+			cs = append(cs, nvarCase("longprefix", s.finish(8)))
+		}
+		// data-only entries that carry the valid bit but that no head links to ("invalid links"): first in
+		// the store, between two live variables, a chain of two, last in the store (seeded defect c07-1:
+		// ParseDir deciding by the attribute bit instead of the entry type)
+		for k := 0; k < 4; k++ {
+			s = &nvStore{}
+			if k == 0 {
+				s.dataOnly([]byte("orphan first"), 0xFFFFFF)
+			}
+			s.full([]byte("Live1"), g, nvData(r), true, 0xFFFFFF, 0)
+			if k == 1 {
+				s.dataOnly([]byte("orphan between"), 0xFFFFFF)
+			}
+			if k == 2 {
+				d1 := s.dataOnly([]byte("orphan chain head"), 0xFFFFFF)
+				d2 := s.dataOnly([]byte("orphan chain tail"), 0xFFFFFF)
+				s.patchNext(d1, d2)
+			}
+			s.full([]byte("Live2"), g, nvData(r), r.Intn(2) == 0, 0xFFFFFF, 0)
+			if k == 3 {
+				s.dataOnly([]byte("orphan last"), 0xFFFFFF)
+			}
+			cs = append(cs, nvarCase("orphan", s.finish(8*r.Intn(4))))
+		}
+		// two variables of the SAME name and GUID whose values are stores holding an entry of the same name
+		{
+			g2 := nvGuid(r)
+			inner := func(val string) []byte {
+				in := &nvStore{}
+				in.full([]byte("Inner"), g2, []byte(val), true, 0xFFFFFF, 0)
+				return in.finish(0)
+			}
+			s = &nvStore{}
+			s.full([]byte("Outer"), g, inner("value in the first"), true, 0xFFFFFF, 0)
+			s.full([]byte("Outer"), g, inner("another value in the second"), true, 0xFFFFFF, 0)
+			cs = append(cs, nvarCase("nested", s.finish(16)))
 		}
 		// two variables whose values are stores themselves, holding entries of the same name
 		for k := 0; k < 2; k++ {
